@@ -948,9 +948,9 @@ func c07CaseSets(thorough bool) [][]c07TC {
 		out = append(out, []c07TC{expl(s, "success")})
 	}
 	out = append(out, quick[1], quick[2],
-		[]c07TC{def(1, "success"), expl(1, "error")},                   // two tests of one stream type
-		[]c07TC{def(3, "success"), def(5, "success")},                  // same leaf name, different stream prefix
-		[]c07TC{expl(4, "a"), def(5, "b"), def(4, "c")},                // both bidi kinds share the default method
+		[]c07TC{def(1, "success"), expl(1, "error")},                               // two tests of one stream type
+		[]c07TC{def(3, "success"), def(5, "success")},                              // same leaf name, different stream prefix
+		[]c07TC{expl(4, "a"), def(5, "b"), def(4, "c")},                            // both bidi kinds share the default method
 		[]c07TC{{Name: "no-prefix", Stream: 1}, def(1, "no-prefix"), expl(2, "x")}, // name that is a suffix of another
 	)
 	return out
@@ -1070,19 +1070,20 @@ func c07MakePlan(t *testing.T, thorough bool) *c07Plan {
 	t.Helper()
 	plan := &c07Plan{directives: c07Directives(thorough)}
 	all := c07CaseSets(thorough)
+	small := c07CaseSets(false)
 	named := c07NamedSets(t)
 	var universe, singles []c07CC
 	if thorough {
 		universe = c07Universe([]int32{1, 2, 3}, []int32{1, 2, 3}, []int32{1, 2}, []int32{1, 2, 4}, []int32{1, 2, 3, 4, 5})
 		singles = c07Universe([]int32{1, 2, 3}, []int32{1, 2, 3}, []int32{1, 2}, []int32{1, 2, 4}, []int32{1, 5})
 		plan.caseSetsA = all
-		plan.caseSetsB = [][]c07TC{all[0], all[11]}
+		plan.caseSetsB = [][]c07TC{small[0], small[1]} // stream types 1 and 5, as in the singleton universe
 		plan.named = named
 	} else {
 		universe = c07Universe([]int32{1, 2, 3}, []int32{1, 2, 3}, []int32{1, 2}, []int32{1, 2}, []int32{1, 3, 5})
 		singles = c07Universe([]int32{1, 2}, []int32{1, 2, 3}, []int32{1, 2}, []int32{1}, []int32{1})
 		plan.caseSetsA = all
-		plan.caseSetsB = [][]c07TC{all[1]}
+		plan.caseSetsB = [][]c07TC{small[1]}
 		plan.named = named[:len(named)-1] // the (large) reference-impls set only in the thorough tier
 	}
 	tier := "quick"
@@ -1101,7 +1102,7 @@ func c07MakePlan(t *testing.T, thorough bool) *c07Plan {
 		plan.twinBase = append(plan.twinBase, d)
 	}
 	plan.twinSets = []*c07CfgSet{plan.named[0], named[3]}
-	plan.twinCaseSets = [][]c07TC{all[0], all[1]}
+	plan.twinCaseSets = [][]c07TC{small[0], small[1]}
 	return plan
 }
 
